@@ -631,6 +631,10 @@ def step (st : St) (op impl : List String) : St × Verdict :=
       let orc : Option String :=
         if impl.head? = some "ok" && impl.getLast? ≠ some "self=1" then
           some s!"C08: a password made by makePassword ({alg}) does not verify for the password it was made from"
+        else if impl.head? = some "ok" && (alg = "bcrypt" || alg = "") && pw.length > 72 then
+          -- bcrypt reads 72 bytes of key: a hash made from a longer password verifies for every password that shares its
+          -- first 72 bytes, i.e. for a different password; the tool must refuse (bcrypt.ErrPasswordTooLong)
+          some s!"C08: makePassword produced a bcrypt hash for a password of {pw.length} bytes: bcrypt uses the first 72 only, so the hash verifies for different passwords (every password with the same first 72 bytes)"
         else none
       ({ st with made := made, orc := { st.orc with made := omade } }, verdict orc (cmp m impl))
     | _, _, _, _, _, _ => (st, .badop "makepassword")
